@@ -58,12 +58,17 @@ def effective_enc(pt):
 
 
 def adjuster(adj):
+    """the callable an object-built definition carries: linear in x, the RESULT must be an integer (the referenced
+    value itself may be fractional, e.g. a calibrated half-byte counter with slope 8)"""
+    from fractions import Fraction
     slope, intercept = int(adj["slope"]), int(adj["intercept"])
-    return lambda x: slope * int(x) + intercept if float(x).is_integer() else _bad(x)
 
-
-def _bad(x):
-    raise ValueError(f"non-integer length reference {x}")
+    def f(x):
+        v = slope * Fraction(x) + intercept
+        if v.denominator != 1:
+            raise ValueError(f"non-integer adjusted length {float(v)}")
+        return int(v)
+    return f
 
 
 def build_lookup(entries):
@@ -355,6 +360,14 @@ def add_noise(root, noise):
             continue
         children = [c for c in el if isinstance(c.tag, str)]
         if not children:
+            # element-only elements that may legally be empty: a comment / whitespace as their only content
+            if etree.QName(el).localname in ("UnitSet", "EntryList"):
+                d = noise[i % len(noise)]
+                i += 1
+                if d in (1, 3):
+                    el.append(etree.Comment(" nothing here "))
+                elif d == 2:
+                    el.text = "\n   "
             continue
         # position before the first child and after every child
         for pos, child in enumerate([None] + children):
